@@ -1,4 +1,5 @@
 import TorchDataVerif.Proofs.MPIterE
+import TorchDataVerif.Proofs.MPMapLive
 /-!
 # MP, iterable, in-order: every action preserves the invariant; the initial state; runs
 -/
@@ -7,25 +8,52 @@ namespace TDV.MP
 /-- Validity of an iterable configuration: one shard per worker. -/
 def Cfg.ValidI (c : Cfg) : Prop := c.Valid ∧ c.shards.length = c.W
 
+theorem FinI_of_eq (c : Cfg) (s s' : State) (g : Ghost) (t : List Obs) (h : FinI c s g) (ht : Obs.stop ∉ t)
+    (e1 : s'.obs = s.obs ++ t) (e4 : s'.sendIdx = s.sendIdx) (e7 : s'.rcvdIdx = s.rcvdIdx) : FinI c s' g := by
+  intro hst
+  rw [e1, List.mem_append] at hst
+  rcases hst with hst | hst
+  · rw [e7, e4]; exact h hst
+  · exact absurd hst ht
+
 theorem InvI_obs_frame (c : Cfg) (s s' : State) (t : List Obs) (h : InvI c s) (ht : taskObs t = [])
+    (hts : Obs.stop ∉ t)
     (e1 : s'.obs = s.obs ++ t) (e2 : s'.phase = s.phase) (e3 : s'.shutdown = s.shutdown)
     (e4 : s'.sendIdx = s.sendIdx) (e5 : s'.cyc = s.cyc) (e6 : s'.status = s.status) (e7 : s'.rcvdIdx = s.rcvdIdx)
     (e8 : s'.info = s.info) (e9 : s'.workers = s.workers) (e10 : s'.resQ = s.resQ) : InvI c s' := by
-  obtain ⟨g, ho, hp, hm⟩ := h.core
-  refine ⟨by rw [e2]; exact h.ph, by rw [e3, e7, e4, e2]; exact h.down, g, ?_, hp, ?_⟩
+  obtain ⟨g, ho, hp, hf, hm⟩ := h.core
+  refine ⟨by rw [e2]; exact h.ph, ?_, ⟨g, ?_, hp, FinI_of_eq c s s' g t hf hts e1 e4 e7, ?_⟩, ?_⟩
+  rotate_left 3
+  · rw [e2, e8]; intro hw
+    obtain ⟨e, l, a1, a2, a3⟩ := h.wait hw
+    exact ⟨e, l, a1, a2, by simpa [up, e6] using a3⟩
+  · rw [e3, e7, e4, e2, e1]
+    intro hs
+    obtain ⟨a1, a2, a3⟩ := h.down hs
+    exact ⟨a1, a2, List.mem_append_left _ a3⟩
   · rw [e7, e1, taskObs_append, ht, List.append_nil]; exact ho
-  · rw [e3]; intro hs; exact MidI_of_eq c s s' g none (hm hs) e4 e5 e6 e7 e8 e9 e10
+  · rw [e3]; intro hs
+    exact ⟨MidI_of_eq c s s' g none (hm hs).1 e4 e5 e6 e7 e8 e9 e10, LiveI_of_eq c s s' g (hm hs).2 e6 e7⟩
 
-theorem step_invI (c : Cfg) (s s' : State) (a : Action) (hit : c.iterable = true) (hio : c.inOrder = true)
+theorem step_invI (c : Cfg) (s s' : State) (a : Action) (hv : c.shards.length = c.W) (hit : c.iterable = true)
+    (hio : c.inOrder = true)
     (ha : a ≠ .reset) (h : InvI c s) (hst : step c s a = some s') : InvI c s' ∨ died s' := by
   cases a with
   | reset => exact absurd rfl ha
   | work w =>
     left
-    obtain ⟨g, ho, hp, hm⟩ := h.core
+    obtain ⟨g, ho, hp, hf, hm⟩ := h.core
     rcases Bool.eq_false_or_eq_true s.shutdown with hsd | hsd
-    · -- after shutdown nothing of the protocol state matters any more
-      have hst' := hst
+    · simp only [step] at hst
+      split at hst
+      · cases hst
+      · split at hst
+        · cases hst
+        · split at hst
+          · cases hst
+          · cases hst
+            exact ⟨h.ph, h.down, ⟨g, ho, hp, hf, fun hf' => by simp only [hsd] at hf'; cases hf'⟩, h.wait⟩
+    · obtain ⟨g', hm', hh, har, _⟩ := work_midI c s s' g none w hit (hm hsd).1 hsd hst
       simp only [step] at hst
       split at hst
       · cases hst
@@ -34,19 +62,13 @@ theorem step_invI (c : Cfg) (s s' : State) (a : Action) (hit : c.iterable = true
         · split at hst
           · cases hst
           · cases hst
-            exact ⟨h.ph, h.down, g, ho, hp, fun hf => by simp only [hsd] at hf; cases hf⟩
-    · obtain ⟨g', hm', hh, _, _⟩ := work_midI c s s' g none w hit (hm hsd) hsd hst
-      have hst' := hst
-      simp only [step] at hst
-      split at hst
-      · cases hst
-      · split at hst
-        · cases hst
-        · split at hst
-          · cases hst
-          · cases hst
-            refine ⟨h.ph, h.down, g', ?_, ⟨_, _, hm'.live⟩, fun _ => hm'⟩
-            rw [hh]; exact ho
+            refine ⟨h.ph, h.down, ⟨g', ?_, ⟨_, _, hm'.live⟩, ?_, fun _ => ⟨hm', ?_⟩⟩, h.wait⟩
+            · rw [hh]; exact ho
+            · unfold FinI; rw [hh]; exact hf
+            · have hl := (hm hsd).2
+              rintro ⟨v, hv', hvu⟩
+              obtain ⟨i, hi, w', hw', hc⟩ := hl ⟨v, hv', hvu⟩
+              exact ⟨i, hi, w', by rw [hh]; exact hw', by rw [hh, har]; exact hc⟩
   | kill w =>
     left
     simp only [step] at hst
@@ -56,9 +78,9 @@ theorem step_invI (c : Cfg) (s s' : State) (a : Action) (hit : c.iterable = true
       split at hst
       · cases hst
       · cases hst
-        obtain ⟨g, ho, hp, hm⟩ := h.core
-        refine ⟨h.ph, h.down, g, ho, hp, fun hs => ?_⟩
-        have hm0 := hm hs
+        obtain ⟨g, ho, hp, hf, hm⟩ := h.core
+        refine ⟨h.ph, h.down, ⟨g, ho, hp, hf, fun hs => ⟨?_, (hm hs).2⟩⟩, h.wait⟩
+        have hm0 := (hm hs).1
         have hwl : w < s.workers.length := (List.getElem?_eq_some_iff.mp hk).1
         have := MidI_worker_frame c s { s with workers := s.workers.set w { k with alive := false } } g none g.tk hm0
           rfl rfl rfl rfl rfl (by simp [hm0.wlen]) ?_ hm0.rq hm0.rqw
@@ -78,7 +100,7 @@ theorem step_invI (c : Cfg) (s s' : State) (a : Action) (hit : c.iterable = true
     split at hst
     · cases hst
     · cases hst
-      exact InvI_obs_frame c s _ [_] h (by simp [taskObs]) rfl rfl rfl rfl rfl rfl rfl rfl rfl rfl
+      exact InvI_obs_frame c s _ [_] h (by simp [taskObs]) (by simp) rfl rfl rfl rfl rfl rfl rfl rfl rfl rfl
   | pollTimeout =>
     simp only [step] at hst
     split at hst
@@ -93,17 +115,17 @@ theorem step_invI (c : Cfg) (s s' : State) (a : Action) (hit : c.iterable = true
     · cases hst
     · rename_i hph
       cases hst
-      obtain ⟨g, ho, hp, hm⟩ := h.core
+      obtain ⟨g, ho, hp, hf, hm⟩ := h.core
       rcases Bool.eq_false_or_eq_true s.shutdown with hsd | hsd
-      · obtain ⟨hrs, _⟩ := h.down hsd
+      · obtain ⟨hrs, _, hstop⟩ := h.down hsd
         have hsw : shutdownWorkers c s = s := by simp [shutdownWorkers, hsd]
         have hif : (if c.persistent = true then s else shutdownWorkers c s) = s := by split <;> simp [hsw]
         unfold loopFuel
         rw [loop_done c _ s (by omega), hif]
         simp only [finish]
-        exact ⟨by intro k; simp, fun _ => ⟨hrs, rfl⟩, g, by simpa [taskObs_append, taskObs] using ho, hp,
-          fun hf => by simp only [hsd] at hf; cases hf⟩
-      · exact loop_invI c _ s g hit hio ⟨hm hsd, ho⟩ hsd h.ph
+        exact ⟨by intro k; simp, fun _ => ⟨hrs, rfl, by simp⟩, ⟨g, by simpa [taskObs_append, taskObs] using ho, hp,
+          fun _ => hf hstop, fun hf' => by simp only [hsd] at hf'; cases hf'⟩, (by intro hf'; cases hf')⟩
+      · exact loop_invI c _ s g hv hit hio ⟨(hm hsd).1, ho, (hm hsd).2, hf⟩ hsd h.ph (by unfold loopFuel; omega)
   | recv =>
     left
     simp only [step] at hst
@@ -115,24 +137,24 @@ theorem step_invI (c : Cfg) (s s' : State) (a : Action) (hit : c.iterable = true
       · rename_i hph
         have hsd : s.shutdown = false := by
           rcases Bool.eq_false_or_eq_true s.shutdown with hsd | hsd
-          · have := (h.down hsd).2; rw [hph] at this; cases this
+          · have := (h.down hsd).2.1; rw [hph] at this; cases this
           · exact hsd
-        obtain ⟨g, ho, hp, hm⟩ := h.core
+        obtain ⟨g, ho, hp, hf, hm⟩ := h.core
         split at hst
         · cases hst
         · cases hst
-          exact recvData_invI c s g r rest hit hio ⟨hm hsd, ho⟩ hsd h.ph hq
+          exact recvData_invI c s g r rest hv hit hio ⟨(hm hsd).1, ho, (hm hsd).2, hf⟩ hsd h.ph hq
       · rename_i k hph
         exact absurd hph (h.ph k)
 
 theorem prime_MidI (c : Cfg) (n : Nat) (s : State) (g : Ghost) (hit : c.iterable = true) (hio : c.inOrder = true)
-    (h : MidI c s g none) : ∃ g', MidI c (prime c n s) g' none := by
+    (h : MidI c s g none) (hl : LiveI c s g) : ∃ g', MidI c (prime c n s) g' none ∧ LiveI c (prime c n s) g' := by
   induction n generalizing s g with
-  | zero => exact ⟨g, h⟩
+  | zero => exact ⟨g, h, hl⟩
   | succ n ih =>
     unfold prime
-    obtain ⟨g', hg', _⟩ := MidI_tryPut c s g none hit hio h
-    exact ih _ g' hg'
+    obtain ⟨g', hg', _, _, _, hl'⟩ := MidI_tryPut c s g none hit hio h
+    exact ih _ g' hg' hl'
 
 theorem up_replicate' (W w : Nat) (st : List Bool) (hst : st = List.replicate W true) (hw : w < W) :
     st.getD w false = true := by
@@ -176,14 +198,21 @@ theorem init_invI (c : Cfg) (hv : c.ValidI) (hit : c.iterable = true) (hio : c.i
       · cases hk
     · intro w _; simp [e_q, RChain]
     · intro r hr; rw [e_q] at hr; cases hr
-  obtain ⟨g', hg'⟩ := prime_MidI c (c.P * c.W) s0 _ hit hio hmid0
+  have hpos : 0 < c.P * c.W := Nat.mul_pos hv.1.2 hv.1.1
+  obtain ⟨n, hn⟩ : ∃ n, c.P * c.W = n + 1 := ⟨c.P * c.W - 1, by omega⟩
   have hc := prime_sameCore c (c.P * c.W) s0
-  refine ⟨by rw [hc.phase, e_p]; intro k; simp, by rw [hc.shutdown, e_d]; intro hf; cases hf, g', ?_,
-    ⟨_, _, hg'.live⟩, fun _ => hg'⟩
-  rw [hc.rcvdIdx, hc.obs, e_r, e_o]
-  exact trivial
+  rw [hn] at hc ⊢
+  obtain ⟨g1, hg1, _, _, _, hl1⟩ := MidI_tryPut c s0 _ none hit hio hmid0
+  obtain ⟨g', hg', hl'⟩ := prime_MidI c n (tryPut c s0) g1 hit hio hg1 hl1
+  have hpe : prime c (n + 1) s0 = prime c n (tryPut c s0) := rfl
+  rw [hpe] at hc ⊢
+  refine ⟨(by rw [hc.phase, e_p]; intro k; simp), (by rw [hc.shutdown, e_d]; intro hf; cases hf), ⟨g', ?_,
+    ⟨_, _, hg'.live⟩, ?_, fun _ => ⟨hg', hl'⟩⟩, (by rw [hc.phase, e_p]; intro hf; cases hf)⟩
+  · rw [hc.rcvdIdx, hc.obs, e_r, e_o]
+    exact trivial
+  · intro hst; rw [hc.obs, e_o] at hst; cases hst
 
-theorem run_invI (c : Cfg) (as : List Action) (s s' : State) (hit : c.iterable = true)
+theorem run_invI (c : Cfg) (as : List Action) (s s' : State) (hv : c.shards.length = c.W) (hit : c.iterable = true)
     (hio : c.inOrder = true) (hnr : NoReset as) (h : InvI c s ∨ died s) (hr : run c s as = some s') :
     InvI c s' ∨ died s' := by
   induction as generalizing s with
@@ -195,7 +224,7 @@ theorem run_invI (c : Cfg) (as : List Action) (s s' : State) (hit : c.iterable =
     · rename_i s1 hs1
       refine ih s1 hnr.2 ?_ hr
       rcases h with h | h
-      · exact step_invI c s s1 a hit hio hnr.1 h hs1
+      · exact step_invI c s s1 a hv hit hio hnr.1 h hs1
       · exact Or.inr (died_step c s s1 a hs1 h)
 
 theorem oks_prefix (a b : List Item) (h : a <+: b) : oks a <+: oks b := by
@@ -207,9 +236,10 @@ theorem itemsOf_prefix (c : Cfg) (a b : List (Nat × Nat)) : itemsOf c a <+: ite
 
 /-- What the invariant says about the consumer's observations. -/
 theorem InvI_obs (c : Cfg) (s : State) (hv : c.ValidI) (h : InvI c s) :
-    ∃ D : List Item, ObsRel D (taskObs s.obs) ∧ D <+: Ref.interleave c.shards := by
-  obtain ⟨g, ho, ⟨ρ, a, hp⟩, _⟩ := h.core
-  refine ⟨_, ho, ?_⟩
+    ∃ D : List Item, ObsRel D (taskObs s.obs) ∧ D <+: Ref.interleave c.shards ∧
+      (Obs.stop ∈ s.obs → D = Ref.interleave c.shards) := by
+  obtain ⟨g, ho, ⟨ρ, a, hp⟩, hf, _⟩ := h.core
+  refine ⟨_, ho, ?_, fun hst => (hf hst).2⟩
   have h1 : dataItems c (g.h.take s.rcvdIdx) <+: dataItems c g.h := by
     have := dataItems_prefix c (g.h.take s.rcvdIdx) (g.h.drop s.rcvdIdx)
     rwa [List.take_append_drop] at this
@@ -217,5 +247,55 @@ theorem InvI_obs (c : Cfg) (s : State) (hv : c.ValidI) (h : InvI c s) :
     rw [dataItems_eq_itemsOf, ← itemsOf_liveFrom_zero c hv.2, ← hp]
     exact itemsOf_prefix c _ _
   exact List.IsPrefix.trans h1 h2
+
+/-- Progress in an active iterable state: a blocked consumer is never stuck. -/
+theorem progress_of_invI (c : Cfg) (s : State) (h : InvI c s) (hph : s.phase = .waiting) :
+    (∃ s', step c s .recv = some s') ∨ (∃ w s', step c s (.work w) = some s') ∨
+    (∃ s', step c s .pollTimeout = some s' ∧ died s') := by
+  have hsd : s.shutdown = false := by
+    rcases Bool.eq_false_or_eq_true s.shutdown with hsd | hsd
+    · have := (h.down hsd).2.1; rw [hph] at this; cases this
+    · exact hsd
+  obtain ⟨g, _, _, _, hm⟩ := h.core
+  obtain ⟨hm, _⟩ := hm hsd
+  obtain ⟨e, l, hi, hres, hup⟩ := h.wait hph
+  cases hq : s.resQ with
+  | cons r rest =>
+    left
+    have hu : r.w < c.W := hm.rqw r (by rw [hq]; exact List.mem_cons_self ..)
+    obtain ⟨rc, _⟩ := hm.rq r.w hu
+    have hfil : s.resQ.filter (fun x => x.w == r.w) = r :: rest.filter (fun x => x.w == r.w) := by
+      rw [hq]; simp [List.filter]
+    rw [hfil] at rc
+    have hna := kindAt_ne_ack c _ _ _ rc.1.2.2.2
+    simp only [step, hq, hph, hna, if_false]
+    exact ⟨_, rfl⟩
+  | nil =>
+    right
+    have hinfo := hm.info
+    rw [hi] at hinfo
+    obtain ⟨_, h2, _, h4, _⟩ := hinfo
+    have hw : e.w < c.W := hm.own _ _ h2
+    obtain ⟨k, hk⟩ : ∃ k, s.workers[e.w]? = some k := ⟨_, List.getElem?_eq_getElem (by rw [hm.wlen]; exact hw)⟩
+    obtain ⟨_, q2, _, _, _⟩ := hm.wk e.w k hk
+    have r2 := (hm.rq e.w hw).2
+    rw [hq] at r2
+    simp only [List.filter_nil, List.length_nil, Nat.add_zero] at r2
+    have harr := (hm.st e.w hw).mp hup
+    have hseq := h4 hres (by simp)
+    have hcnt := count_take_succ_le g.h e.w s.rcvdIdx h2
+    have hqne : (taskIdxs k.q).length ≠ 0 := by omega
+    have hkq : k.q ≠ [] := by intro hh; rw [hh] at hqne; simp [taskIdxs] at hqne
+    rcases Bool.eq_false_or_eq_true k.alive with hal | hal
+    · left
+      refine ⟨e.w, ?_⟩
+      cases hkq' : k.q with
+      | nil => exact absurd hkq' hkq
+      | cons m rest =>
+        simp only [step, hk, hal, hkq', Bool.not_true, Bool.false_eq_true, if_false]
+        exact ⟨_, rfl⟩
+    · right
+      obtain ⟨s', hs', hobs, _⟩ := pollTimeout_detects c s e.w k (by rw [hph]; simp) hq hw hup hk hal
+      exact ⟨s', hs', by unfold died; rw [hobs]; simp⟩
 
 end TDV.MP
